@@ -170,6 +170,9 @@ class Graph(object):
             self.adjacency_matrix = adjacency_matrix.copy()
         else:
             self.adjacency_matrix = adjacency_matrix
+        # explicitly stored zeros are not edges, but scipy's graph routines
+        # (paths, cycles, spanning trees) would treat them as such
+        self.adjacency_matrix.eliminate_zeros()
 
     @classmethod
     def init_from_edges(cls, edges, n_vertices, skip_checks=False):
